@@ -19,9 +19,9 @@ Section StepComponents.
   Variables (K : X -> U) (KH : U -> X) (proxfc : R -> U -> U) (proxg : R -> X -> X).
   Notation step := (pd_step_scalar ROps X U K KH proxfc proxg).
   Definition next_u (st : pd_state ROps X U R R) : U :=
-    proxfc (pd_sigma st) (vadd (pd_u st) (vscale (pd_sigma st) (K (pd_xext st)))).
+    proxfc (pd_sigma st) (vadd (pd_u st) (vscale (S := ROps) (pd_sigma st) (K (pd_xext st)))).
   Definition next_x (st : pd_state ROps X U R R) : X :=
-    proxg (pd_tau st) (vadd (pd_x st) (vscale (- pd_tau st) (KH (next_u st)))).
+    proxg (pd_tau st) (vadd (pd_x st) (vscale (S := ROps) (- pd_tau st) (KH (next_u st)))).
   Lemma pd_scalar_u theta gp gd st : pd_u (step theta gp gd st) = next_u st.
   Proof.
     unfold pd_step_scalar, pd_step.
@@ -34,7 +34,7 @@ Section StepComponents.
   Qed.
   (* x_ext = x + theta' (x - x_old): a state whose x is reproduced keeps x_ext = x *)
   Lemma pd_scalar_xext theta gp gd st :
-    exists th, pd_xext (step theta gp gd st) = vadd (next_x st) (vscale th (vsub (next_x st) (pd_x st))).
+    exists th : R, pd_xext (step theta gp gd st) = vadd (next_x st) (vscale (S := ROps) th (vsub (next_x st) (pd_x st))).
   Proof.
     unfold pd_step_scalar, pd_step.
     destruct (sgt0 gp && seq0 gd); [eexists; reflexivity|]. destruct (seq0 gp && sgt0 gd); eexists; reflexivity.
@@ -68,7 +68,9 @@ Section DataDual.
   Lemma dual_data_fixed sigma (u w : Y) : 0 < sigma ->
     (pdhg_dual_prox_data ROps (IPSV Y) y sigma (vplus u (vmul sigma w)) = u <-> u = vminus w y).
   Proof.
-    intro Hs. rewrite dual_data_formula, vdiv_eq by lra. split; intro H.
+    intro Hs. rewrite dual_data_formula.
+    assert (Hk : 1 + sigma <> 0) by lra.
+    split; intro H; [apply (proj1 (vdiv_eq Y (1 + sigma) _ _ Hk)) in H | apply (proj2 (vdiv_eq Y (1 + sigma) _ _ Hk))].
     - apply ip_ext. intro t. apply (f_equal (fun v => ip v t)) in H. revert H. ip_norm. intro H.
       apply Rmult_eq_reg_l with sigma; lra.
     - subst u. vec_eq.
@@ -100,7 +102,7 @@ Section PdhgNoG.
     pdhg_primal_prox ROps XV lam z proxg tau v =
     eff_prox X proxg (tau / (1 + lam * tau)) (vmul (/ (1 + lam * tau)) (vplus v (vmul (lam * tau) zz))).
   Proof.
-    intro Ht. unfold pdhg_primal_prox. destruct (sgt0 lam) eqn:E.
+    intro Ht. unfold pdhg_primal_prox. destruct (@sgt0 ROps lam) eqn:E.
     - unfold l2reg. cbn [vadd vscale vdivs vt IPSV s1 smul sadd sdiv ROps].
       destruct z as [q|]; destruct proxg as [p|]; cbn [zz_of eff_prox]; try reflexivity.
       + rewrite vmul_0_r, vplus_0_r'. reflexivity.
@@ -131,17 +133,18 @@ Section PdhgNoG.
     (pd_x st' = pd_x st /\ pd_u st' = pd_u st) <->
     (is_min0 (pd_x st) /\ pd_u st = vminus (A (pd_x st)) y).
   Proof.
-    intros Ht Hs He st'. unfold st', lls_pdhg_step. rewrite pd_scalar_x, pd_scalar_u.
-    unfold next_x. set (u' := next_u _ _ _ _ st).
-    assert (Hu' : u' = pd_u st <-> pd_u st = vminus (A (pd_x st)) y).
-    { unfold u', next_u. rewrite He. cbn [vadd vscale vt IPSV]. apply dual_data_fixed. exact Hs. }
-    cbn [vadd vscale vt IPSV].
+    destruct st as [x u xe tau sigma tmin smin r]. cbn [pd_x pd_u pd_xext pd_tau pd_sigma].
+    intros Ht Hs He. cbv zeta. subst xe. unfold lls_pdhg_step. rewrite pd_scalar_x, pd_scalar_u.
+    unfold next_x, next_u. cbn [pd_x pd_u pd_xext pd_tau pd_sigma]. cbn [vadd vscale vt IPSV].
+    set (u' := pdhg_dual_prox_data ROps YV y sigma (vplus u (vmul sigma (A x)))).
+    assert (Hu' : u' = u <-> u = vminus (A x) y) by (apply dual_data_fixed; exact Hs).
+    clearbody u'.
     rewrite (min_iff_subgrad X Y A AH A_adj y lam zz lam_nonneg dom g g_convex).
     split.
     - intros [Hx Hu]. pose proof (proj1 Hu' Hu) as Huy. split; [|exact Huy].
-      rewrite Hu in Hx. apply (primal_fixed _ _ _ Ht) in Hx. rewrite Huy in Hx. exact Hx.
+      subst u'. apply (primal_fixed _ _ _ Ht) in Hx. subst u. exact Hx.
     - intros [Hm Huy]. pose proof (proj2 Hu' Huy) as Hu. split; [|exact Hu].
-      rewrite Hu. apply (primal_fixed _ _ _ Ht). rewrite Huy. exact Hm.
+      subst u'. apply (primal_fixed _ _ _ Ht). subst u. exact Hm.
   Qed.
 
   (* ... and then x_ext = x again, so the state is reproduced for every later update as well *)
@@ -181,11 +184,11 @@ Section PdhgWithG.
 
   (* Conj(proxg) reproduces u2 from u2 + sigma * w  <=>  u2 is a subgradient of g at w *)
   Lemma conj_fixed sigma (u2 w : W) : 0 < sigma ->
-    (conj_prox (V := WV) (match proxg with None => noop | Some p => p end) sigma (vplus u2 (vmul sigma w)) = u2
+    (conj_prox (S := ROps) (V := WV) (prox_or_noop (S := ROps) (V := WV) proxg) sigma (vplus u2 (vmul sigma w)) = u2
      <-> subgrad W dom g w u2).
   Proof.
     intro Hs.
-    assert (Ep : (match proxg with None => noop (V := WV) | Some p => p end) = eff_prox W proxg) by (destruct proxg; reflexivity).
+    assert (Ep : prox_or_noop (S := ROps) (V := WV) proxg = eff_prox W proxg) by (destruct proxg; reflexivity).
     rewrite Ep. unfold conj_prox. cbn [vadd vsub vscale vdivs vt IPSV sdiv s1 ROps].
     set (P := eff_prox W proxg (1 / sigma) (vmul (/ sigma) (vplus u2 (vmul sigma w)))).
     assert (HP : P = w <-> subgrad W dom g w u2).
@@ -206,13 +209,14 @@ Section PdhgWithG.
     intro Ht.
     assert (Ef : pdhgG_primal_prox ROps XV lam z tau (vplus x (vmul (- tau) k)) =
                  vmul (/ (1 + lam * tau)) (vplus (vplus x (vmul (- tau) k)) (vmul (lam * tau) zz))).
-    { unfold pdhgG_primal_prox. destruct (sgt0 lam) eqn:E.
+    { unfold pdhgG_primal_prox. destruct (@sgt0 ROps lam) eqn:E.
       - unfold l2reg. cbn [vadd vscale vdivs vt IPSV s1 smul sadd sdiv ROps].
         destruct z as [q|]; cbn [zz_of]; [reflexivity|]. rewrite vmul_0_r, vplus_0_r'. reflexivity.
       - apply sgt0_R_false in E. assert (lam = 0) by lra. subst lam. unfold noop.
         apply ip_ext; intro t; ip_norm; field; lra. }
-    rewrite Ef. assert (Hk : 0 < 1 + lam * tau) by nra. rewrite vdiv_eq by lra.
-    split; intro H; apply ip_ext; intro t; apply (f_equal (fun v => ip v t)) in H; revert H; ip_norm; intro H.
+    rewrite Ef. assert (Hk : 1 + lam * tau <> 0) by nra.
+    split; intro H; [apply (proj1 (vdiv_eq X _ _ _ Hk)) in H | apply (proj2 (vdiv_eq X _ _ _ Hk))];
+      apply ip_ext; intro t; apply (f_equal (fun v => ip v t)) in H; revert H; ip_norm; intro H.
     - apply Rmult_eq_reg_l with tau; lra.
     - apply (f_equal (Rmult tau)) in H. lra.
   Qed.
@@ -225,22 +229,23 @@ Section PdhgWithG.
     (pd_x st' = pd_x st /\ pd_u st' = pd_u st) <->
     (kktG (pd_x st) (snd (pd_u st)) /\ fst (pd_u st) = vminus (A (pd_x st)) y).
   Proof.
-    intros Ht Hs He st'. unfold st', lls_pdhgG_step. rewrite pd_scalar_x, pd_scalar_u.
-    unfold next_x. set (u' := next_u _ _ _ _ st).
-    destruct (pd_u st) as [u1 u2] eqn:Eu. cbn [fst snd].
-    assert (Hu' : u' = (u1, u2) <-> (u1 = vminus (A (pd_x st)) y /\ subgrad W dom g (G (pd_x st)) u2)).
-    { unfold u', next_u. rewrite He, Eu. unfold pdhgG_dual_prox, stackA.
-      cbn [vadd vscale vt stackU prodV fst snd]. cbn [vadd vscale vt IPSV].
-      rewrite pair_equal_spec. rewrite (dual_data_fixed Y y _ u1 (A (pd_x st)) Hs).
-      rewrite (conj_fixed _ u2 (G (pd_x st)) Hs). reflexivity. }
-    unfold kkt.
+    destruct st as [x [u1 u2] xe tau sigma tmin smin r]. cbn [pd_x pd_u pd_xext pd_tau pd_sigma fst snd].
+    intros Ht Hs He. cbv zeta. subst xe. unfold lls_pdhgG_step. rewrite pd_scalar_x, pd_scalar_u.
+    unfold next_x, next_u. cbn [pd_x pd_u pd_xext pd_tau pd_sigma].
+    unfold pdhgG_dual_prox, stackA, stackAH.
+    cbn [vadd vscale vt stackU prodV fst snd]. cbn [vadd vscale vt IPSV].
+    set (u1' := pdhg_dual_prox_data ROps YV y sigma (vplus u1 (vmul sigma (A x)))).
+    set (u2' := conj_prox (S := ROps) (V := WV) _ sigma (vplus u2 (vmul sigma (G x)))).
+    assert (H1' : u1' = u1 <-> u1 = vminus (A x) y) by (apply dual_data_fixed; exact Hs).
+    assert (H2' : u2' = u2 <-> subgrad W dom g (G x) u2) by (apply conj_fixed; exact Hs).
+    clearbody u1' u2'. unfold kkt. rewrite pair_equal_spec.
     split.
-    - intros [Hx Hu]. destruct (proj1 Hu' Hu) as [H1 H2]. split; [split; [exact H2|]|exact H1].
-      rewrite Hu in Hx. unfold stackAH in Hx. cbn [fst snd vadd vscale vt IPSV] in Hx.
-      apply (primalG_fixed _ _ _ Ht) in Hx. rewrite H1 in Hx. rewrite <- Hx. unfold gradfsm. vec_eq.
-    - intros [[H2 Hk] H1]. pose proof (proj2 Hu' (conj H1 H2)) as Hu. split; [|exact Hu].
-      rewrite Hu. unfold stackAH. cbn [fst snd vadd vscale vt IPSV].
-      apply (primalG_fixed _ _ _ Ht). rewrite H1. rewrite <- Hk. unfold gradfsm. vec_eq.
+    - intros [Hx [Hu1 Hu2]]. pose proof (proj1 H1' Hu1) as E1. pose proof (proj1 H2' Hu2) as E2.
+      split; [split; [exact E2|]|exact E1].
+      subst u1' u2'. apply (primalG_fixed _ _ _ Ht) in Hx. subst u1. rewrite <- Hx. unfold gradfsm. vec_eq.
+    - intros [[E2 Hk] E1]. pose proof (proj2 H1' E1) as Hu1. pose proof (proj2 H2' E2) as Hu2.
+      split; [|split; assumption]. subst u1' u2'. apply (primalG_fixed _ _ _ Ht). subst u1.
+      rewrite <- Hk. unfold gradfsm. vec_eq.
   Qed.
 
   (* a fixed point of the configured step solves the documented problem *)
@@ -256,13 +261,13 @@ Section PdhgWithG.
 
   (* conversely: a minimiser at which the chain rule d(g o G)(x) = G^H dg(G x) holds — i.e. a minimiser
      that admits a KKT multiplier — is the primal part of a fixed point, with explicit dual variables *)
-  Lemma pdhgG_kkt_fixed_lemma tau sigma x w th tmin smin r :
+  Lemma pdhgG_kkt_fixed_lemma tau sigma x w tmin smin r :
     0 < tau -> 0 < sigma -> kktG x w ->
     let st := mkPD (S := ROps) (X := XV) (U := UV) x (vminus (A x) y, w) x tau sigma tmin smin r in
     let st' := lls_pdhgG_step ROps XV YV WV A AH G GH y lam z proxg st in
     pd_x st' = x /\ pd_u st' = (vminus (A x) y, w).
   Proof.
-    intros Ht Hs Hk st st'. clear th.
+    intros Ht Hs Hk st st'.
     apply (proj2 (pdhgG_fixed_iff_kkt_lemma st Ht Hs eq_refl)). cbn [pd_x pd_u fst snd]. auto.
   Qed.
 
